@@ -364,7 +364,7 @@ func timerDefaultsChild(opt *Options) error {
 	id := 0
 	stuck := false
 	judged := 0
-	for ex := 0; ex < 20 && judged < 12 && !stuck; ex++ {
+	for ex := 0; ex < 60 && judged < 36 && !stuck; ex++ {
 		atomic.StoreInt64(&stall, 0)
 		emit(map[string]any{"e": "Begin", "late": 1, "L": 400000, "Q": 300000, "idle": 30000000, "slack": 1000000, "maxw": 10, "unit": 0, "gap": 0})
 		for i := 0; i < 250; i++ {
